@@ -540,6 +540,29 @@ def framing(ck, rng, m, data):
                 ck.violation(f'unknown-non-critical-payload-not-skipped:{outcome}', case, case)
             elif [abstract_of(o) for o in parsed.payloads] != [strip(p) for p in base]:
                 ck.violation('skipping-an-unknown-payload-changed-the-others', case, case)
+    # several unknown payloads in one chain, of the same type number or of different ones: EACH is judged on its own critical bit, whatever came before it
+    for pattern in ((False, True), (False, False, True), (True, False), (False, False)):
+        pls = list(base)
+        same = rng.random() < 0.7
+        for k_, crit in enumerate(pattern):
+            pos = rng.randrange(k_ and pls.index(last_) + 1 or 0, len(pls) + 1)
+            last_ = {'type': utype if same else rng.choice([37, 38, 47, 48, 49, 100, 200, 255]), 'critical': crit, 'body': gen.rb(rng, rng.randrange(0, 12))}
+            pls.insert(pos, last_)
+        d = codec.encode_clear(dict(m, payloads=pls))
+        case = {'data': d, 'unknown_type': utype, 'critical_bits_in_chain_order': pattern, 'same_type_number': same}
+        try:
+            M.Message.parse(d)
+            outcome = 'accepted'
+        except M.UnsupportedCriticalPayload:
+            outcome = 'critical'
+        except Exception as ex:
+            outcome = type(ex).__name__
+        ck.count('framing.several_unknown_payloads_in_one_chain')
+        ck.nontrivial(('unknown-several', pattern, same, outcome))
+        if any(pattern) and outcome != 'critical':
+            ck.violation(f'unknown-critical-payload-not-rejected-as-such:{outcome}:behind-another-unknown-payload', case, case)
+        if not any(pattern) and outcome != 'accepted':
+            ck.violation(f'unknown-non-critical-payload-not-skipped:{outcome}:several-in-one-chain', case, case)
     # chains that do not end at the end of the data
     variants = []
     for k in (1, 2, 3, 4, 5, 8, 17):
